@@ -91,6 +91,10 @@ def binary_shape(f, pushed, wrap=None):
         else:
             return op, False, 'operands are (%s, %s), expected (lhs, rhs)' % (show(a), show(b))
     da = var_def_block(f, a)
+    if b[0] == 'var' and b[1] != 'rhs':
+        sd = f.single_def(b[2])      # a mask bound to a name first (`let align_mask = !(rhs - 1)`): one level only
+        if sd is not None and sd['kind'] == 'assign':
+            b = f.rvalue_tree(sd['rv'])
     rhs_var = b if b[0] == 'var' else next((x for x in walk(b) if isinstance(x, tuple) and x and x[0] == 'var' and x[1] == 'rhs'), None)
     db = var_def_block(f, rhs_var) if rhs_var else None
     if da is None or db is None:
